@@ -276,7 +276,7 @@ Proof.
   - apply wps_ret. eapply R_frame; [|eauto]; reflexivity.
   - destruct (k_chan s) as [[i [|]]|]; try exact I. destruct (k_dead s); [exact I|]. apply handleWrite_R; auto.
   - destruct (k_chan s) as [[i [|]]|]; try exact I. destruct (k_dead s); [exact I|]. apply handleError_R; auto.
-  - destruct (min_due (timers s)); [|exact I]. destruct (has_dup _); [exact I|].
+  - destruct (min_due (timers s)); [|exact I].
     apply fire_all_R. eapply R_frame; [|eauto]; reflexivity.
   - eapply wps_bind; [apply run_n_R; eauto|]. intros a1 s1 H1. apply wps_ret. eapply R_frame; [|eauto]; reflexivity.
   - destruct (pending s); [exact I|]. apply run_one_R; auto.
@@ -284,7 +284,7 @@ Proof.
   - destruct (negb (user_api_ok s)); [exact I|]. destruct (connection s); [|exact I].
     destruct (find_user _ _); [exact I|]. apply wps_ret. eapply R_frame; [|eauto]; reflexivity.
   - destruct (find_user _ _) as [c|]; [|exact I]. destruct (nth_error _ _); [|exact I].
-    destruct (_ && _); [exact I|]. apply wps_ret. eapply R_frame; [|eauto]; reflexivity.
+    apply wps_ret. eapply R_frame; [|eauto]; reflexivity.
 Qed.
 
 Lemma step_R s o s' ev a : R a s -> step s o = Ok s' ev -> exists a', spec_run a ev = Some a' /\ R a' s'.
